@@ -247,6 +247,11 @@ def _sig_rewrites(fn, info, ds=False):
     info["rewrites"]["R0 result alias expanded"] = info["rewrites"].get("R0 result alias expanded", 0) + n
     fn, n = rsx.replace_code(fn, r"debug_assert!\(i\);", "assert(i);")
     info["rewrites"]["R2 debug_assert!(i) -> assert(i)"] = info["rewrites"].get("R2 debug_assert!(i) -> assert(i)", 0) + n
+    # R2 is only sound for a side-effect-free argument (a plain local): anything else is evaluated in debug builds and
+    # NOT in release builds, and Verus would verify the debug-build behaviour only
+    code = "".join(ch for ch, m in zip(fn, rsx.code_mask(fn)) if m)
+    if re.search(r"\bdebug_assert(_eq|_ne)?!\s*\(", code):
+        raise rsx.RewriteRefused("a debug_assert! with an argument other than a plain local remains: its evaluation differs between debug and release builds")
     return fn
 
 
